@@ -83,6 +83,26 @@ for _pid, _t in _DED.items():
     PROPERTY_TEXT[_pid]["level_text"] = PROPERTY_TEXT[_pid]["level_text"] + " DEDUCTIVE PART: " + _t
     PROPERTY_TEXT[_pid]["explanation"] = PROPERTY_TEXT[_pid]["explanation"] + " DEDUCTIVE PART: " + _t
 
+A_SLOTS = ("raw hexary nodes: a child list stored in its parent's slot is the only aliasing between node lists (nodes "
+           "come from rlp.decode, which builds fresh lists; the lru_cache'd _cached_create_node_to_db_mapping is "
+           "protected by tuplify / listify in the real code -- assumed, not proved)")
+A_SOLVERS = ("z3 4.x / 5.1 and cvc5 as solvers (a `sat` answer is only accepted with a validated model; the z3 5.1 "
+             "incremental-mode defect described in DESIGN section 0 is worked around); Lean 4 kernel for the spec lemmas")
+A_BITS = ("integer bit operations are read through uninterpreted testbit / bxor / pow2 with the facts stated in "
+          "contracts/smt_c.py (2**0 = 1, 2**e >= 1, 2**e >> 1 = 2**(e-1), x & 2**e <=> testbit(x, e), bxor(x, y) = 0 "
+          "<=> x = y); bit extensionality (same bits => same key) is not used by any obligation")
+A_SORTED = ("sortedcontainers.SortedSet (membership + ascending order, copy / remove / bisect / index / len / in), "
+            "itertools.zip_longest and map are modelled as assumed library contracts (contracts/fog_c.py)")
+A_WFNODES = ("if_branch_valid / get_from_proof are decided for arbitrary lists of *well-formed* node bodies; bodies "
+             "altered into malformed encodings are covered by the bounded tier only")
+_EXTRA = {
+    "C01": [A_SLOTS], "C02": [A_SLOTS], "C03": [A_SLOTS, A_WFNODES], "C04": [A_SLOTS], "C05": [A_SLOTS],
+    "C06": [A_SLOTS], "C07": [A_SLOTS], "C08": [A_SLOTS], "C09": [A_SLOTS, A_SORTED], "C10": [A_SLOTS],
+    "C11": [A_SORTED], "C13": [A_WFNODES], "C14": [A_BITS], "C15": [A_BITS],
+}
+for _pid in PROPERTY_TEXT:
+    PROPERTY_TEXT[_pid]["assumptions"] = PROPERTY_TEXT[_pid]["assumptions"] + _EXTRA.get(_pid, []) + [A_SOLVERS]
+
 PROPERTY_TEXT["C09"]["not_decided"] = [
     "termination of the walk ('always terminates with the fog complete'): liveness over all schedules is outside "
     "what function contracts express; observed by the bounded harness, not claimed"]
